@@ -78,6 +78,36 @@ Theorem c20_mirrors_independent : forall ops s m1 m2 j,
 Proof. exact mirrors_independent. Qed.
 Print Assumptions c20_mirrors_independent.
 
+(** A mirror connection's lifetime: the connection number of a mirror task changes only by a reconnect while the
+    task holds no connection, and a held connection is lost only by a failure step (read error / the mirror
+    closes, write error, task end) -- never by a forwarded request or by anything the mirror answers. *)
+Theorem c20_mirror_conn_replaced_only_after_failure : forall e c,
+  (epoch (env_step e c) <> epoch c ->
+     e = Reconnect /\ lnk c = Down /\ closed c = false /\ epoch (env_step e c) = S (epoch c)) /\
+  (lnk c = Up -> lnk (env_step e c) = Down -> is_failure e = true) /\
+  (forall b, epoch (chan_step c (inl b)) = epoch c /\ lnk (chan_step c (inl b)) = lnk c /\
+             handed (chan_step c (inl b)) = handed c).
+Proof.
+  intros e c. split; [exact (epoch_changes_only_on_reconnect e c)|].
+  split; [exact (link_lost_only_by_failure e c) | intros b; exact (offer_keeps_connection b c)].
+Qed.
+Print Assumptions c20_mirror_conn_replaced_only_after_failure.
+
+(** While nothing fails, everything a mirror of a server connection is handed goes over ONE connection (the first
+    and only one the task opens), in any interleaving of offers, deliveries, replies and (re)connect attempts;
+    and inside a run the channel of mirror j evolves by exactly these per-channel steps. *)
+Theorem c20_mirror_one_continuous_connection : forall xs ep b,
+  no_failure xs = true -> In (ep, b) (handed (fold_left chan_step xs new_chan)) ->
+  ep = 1 /\ epoch (fold_left chan_step xs new_chan) = 1.
+Proof. exact mirror_conn_lifetime. Qed.
+Print Assumptions c20_mirror_one_continuous_connection.
+
+Theorem c20_run_channel_view : forall ops s m j,
+  nth_error (snd (fst (run s m ops))) j =
+  option_map (fold_left chan_step (flat_map (view j) ops)) (nth_error m j).
+Proof. intros. apply run1_chan_view. Qed.
+Print Assumptions c20_run_channel_view.
+
 (** In the pooler a send on a live connection is logged in the very step it is issued, in
     every state of every mirror: there is no enabling condition. *)
 Theorem c20_send_always_completes : forall g w cid c b ok,
@@ -194,6 +224,15 @@ Example ex_stalled_first :
   map snd (handed (nth 1 (snd (fst r)) new_chan)) = bufs n
   /\ q (nth 0 (snd (fst r)) new_chan) = firstn capacity (bufs n).
 Proof. vm_compute. split; reflexivity. Qed.
+
+(** a transaction, a SET, a COPY ... : whatever is forwarded and answered, one connection; a failure, then two *)
+Example ex_one_connection :
+  let xs := [inr Reconnect; inl (buf 1); inr Deliver; inr Reply; inl (buf 2); inr Deliver; inr Reply; inr Reconnect;
+             inl (buf 3); inr Deliver] in
+  handed (fold_left chan_step xs new_chan) = [(1, buf 1); (1, buf 2); (1, buf 3)]
+  /\ no_failure xs = true
+  /\ map fst (handed (fold_left chan_step (xs ++ [inr Fail; inr Reconnect; inl (buf 4); inr Deliver]) new_chan)) = [1; 1; 1; 2].
+Proof. vm_compute. repeat split; reflexivity. Qed.
 
 (** a failing write to the mirror loses that buffer only; a failing write to the REAL server
     is reported to the caller and marks the server bad, mirrors or not *)
